@@ -1,4 +1,5 @@
 import NeverModel.Lemmas.InvCollect
+import NeverModel.Lemmas.VmFreeSound
 set_option linter.unusedSimpArgs false
 set_option linter.unusedVariables false
 /-!
@@ -213,5 +214,93 @@ example : Inv ((Gc.new 6).exec exPrefix) ∧ ((Gc.new 6).exec exPrefix).wellType
 example : Inv ((Gc.new 6).exec (exPrefix ++ [exCollect, .alloc (.func 1 9)])) := inv_history 6 (by decide) _
 example : (Gc.new 3).alloc (.int 1) ≠ none := by decide +kernel
 example : ((Gc.new 2).alloc (.int 1)).bind (fun r => r.1.alloc (.int 2)) = none := by decide +kernel
+
+
+/-! ## the bookkeeping invariant at VM level
+
+`Inv` above needs every stored reference to be well-kinded (`WK`), which is a typing matter; its allocator part `FreeInv`
+(Lemmas/FreeInv.lean) does not: the mark phase only sets marks and the sweep decides by mark and by `obj ≠ none`, so a collection
+keeps the free chain and the allocated list right WHATEVER the objects hold (`freeInv_collect`).  A fifth effect logic over the VM monad
+(`KF`, Lemmas/VmFree*.lean) shows that every handler of `exec` keeps it: the only primitive that could break it is a raw store
+`setObj a` into a FREE cell, and every handler has read the object at `a` or allocated `a` just before, with nothing in between that
+frees a cell. -/
+
+/-- the allocator part of the invariant follows from it, holds of a fresh heap, and is kept by an allocation, by a store into a cell
+that holds an object, and by a whole collection — with no condition on what the objects refer to -/
+theorem free_inv_basics :
+    (∀ g, Inv g → FreeInv g) ∧ (∀ n, 1 ≤ n → FreeInv (Gc.new n)) ∧
+    (∀ g g' o loc, FreeInv g → g.alloc o = some (g', loc) → FreeInv g' ∧ loc ≠ 0 ∧ objAt g.mem loc = none ∧ objAt g'.mem loc = some o) ∧
+    (∀ g a o, FreeInv g → (objAt g.mem a).isSome = true → FreeInv { g with mem := g.mem.setObj a (some o) }) ∧
+    (∀ g g' st gp, FreeInv g → g.collect st gp = some g' → FreeInv g') ∧
+    (∀ g g' st gp, FreeInv g → g.run st gp = some g' → FreeInv g') :=
+  ⟨fun _ h => h.toFree, freeInv_new, fun _ _ _ _ hi h => freeInv_alloc hi h, fun _ _ _ hi h => freeInv_setObj hi (Or.inl h),
+   fun _ _ _ _ hi h => freeInv_collect hi h, fun _ _ _ _ hi h => freeInv_run hi h⟩
+
+/-- **Every handler of M-VM keeps the heap's bookkeeping intact** (all 222 opcodes, any module — verified or not —, any machine state,
+any results of external calls), hence so does every `step` -/
+theorem vm_step_keeps_bookkeeping (md : Vm.Module) (orc : Vm.Oracle) (vm vm' : Vm.Vm) (hi : FreeInv vm.gc)
+    (hstep : (Vm.step md orc).run vm = .ok ((), vm')) : FreeInv vm'.gc :=
+  Vm.step_keeps_freeInv md orc vm vm' hi hstep
+
+/-- **The heap bookkeeping invariant holds along every execution of M-VM.**  For every module, every heap of at least one cell and
+every run of `step` from the machine `nev_execute` starts on (`Ver.RunsTo`: any number of steps, each with any results of its external
+calls), the heap of the reached state satisfies `FreeInv`: cell 0 is nil; every other cell is in exactly one place — on the free chain
+(then it holds no object) or on the allocated list (then it holds one); both lists are duplicate-free and none is lost
+(`free + allocated + 1 = size` for a heap of at least one cell); and the allocator hands out only free cells inside the heap.  This is C09's property for every VM
+execution, not only for histories of well-typed `Gc` operations. -/
+theorem vm_heap_bookkeeping_invariant (md : Vm.Module) (mem stack gcMode : Nat) (hmem : 1 ≤ mem) (n : Nat) (vm' : Vm.Vm)
+    (hr : Ver.RunsTo md (fun _ => True) n (Vm.beginExecute md (Vm.Vm.new mem stack gcMode)) vm') :
+    FreeInv vm'.gc ∧
+    (∃ fl, Chain vm'.gc.mem vm'.gc.free fl ∧ fl.Nodup ∧ vm'.gc.cur.Nodup ∧
+      (1 ≤ vm'.gc.mem.size → fl.length + vm'.gc.cur.length + 1 = vm'.gc.mem.size) ∧
+      ∀ x, 0 < x → x < vm'.gc.mem.size →
+        (x ∈ fl ∧ x ∉ vm'.gc.cur ∧ objAt vm'.gc.mem x = none) ∨ (x ∉ fl ∧ x ∈ vm'.gc.cur ∧ (objAt vm'.gc.mem x).isSome = true)) ∧
+    (vm'.gc.free = 0 ∨ (vm'.gc.free < vm'.gc.mem.size ∧ objAt vm'.gc.mem vm'.gc.free = none)) := by
+  have h0 : FreeInv (Vm.beginExecute md (Vm.Vm.new mem stack gcMode)).gc := by
+    have : (Vm.beginExecute md (Vm.Vm.new mem stack gcMode)).gc = Gc.new mem := by
+      unfold Vm.beginExecute Vm.Vm.new; simp
+    rw [this]; exact freeInv_new mem hmem
+  have hf := Vm.runs_keep_freeInv md n _ vm' h0 hr
+  refine ⟨hf, ?_, hf.alloc_fresh⟩
+  obtain ⟨fl, il⟩ := hf
+  exact ⟨fl, il.chain, il.fl_nodup, il.cur_nodup, fun hsz => il.count hsz, fun x h0 hx => il.exactly_one x h0 hx⟩
+
+/-- **Reads hit allocated cells or stop the machine.**  Every read of a heap cell a handler performs goes through `objOf` (directly or
+through a typed accessor `getInt … getCPtr`): a read that completes found an object in cell `a` and changed nothing; on a free cell, the
+nil cell or an address outside the heap the model crashes (the C code would dereference NULL / fail its assert). -/
+theorem vm_reads_hit_allocated (a : Nat) :
+    Vm.Guard a (Vm.objOf a) ∧ Vm.Guard a (Vm.getInt a) ∧ Vm.Guard a (Vm.getLong a) ∧ Vm.Guard a (Vm.getFloat a) ∧ Vm.Guard a (Vm.getDouble a) ∧
+    Vm.Guard a (Vm.getChar a) ∧ Vm.Guard a (Vm.getStr a) ∧ Vm.Guard a (Vm.getStrRef a) ∧ Vm.Guard a (Vm.getVecRef a) ∧ Vm.Guard a (Vm.getArrRef a) ∧
+    Vm.Guard a (Vm.getVecObj a) ∧ Vm.Guard a (Vm.getArrObj a) ∧ Vm.Guard a (Vm.getFunc a) ∧ Vm.Guard a (Vm.getCPtr a) :=
+  ⟨Vm.guard_objOf a, Vm.guard_getInt a, Vm.guard_getLong a, Vm.guard_getFloat a, Vm.guard_getDouble a, Vm.guard_getChar a, Vm.guard_getStr a,
+   Vm.guard_getStrRef a, Vm.guard_getVecRef a, Vm.guard_getArrRef a, Vm.guard_getVecObj a, Vm.guard_getArrObj a, Vm.guard_getFunc a, Vm.guard_getCPtr a⟩
+
+/-- **Between safe points no cell is freed, and no store lands in a free cell** (the access half of C04, for stores PARTIAL in form).  The
+handler of every instruction of the verifier's effect table (198 opcodes: everything but the frame operations, of which only SLIDE / RET /
+RETHROW run the collector) leaves an object in every cell that held one and keeps `FreeInv`: in particular every cell on the free chain
+afterwards holds no object — a raw `setObj` into a free cell would put one there.  (The logic behind it, `KF`, discharges for every raw
+store the proviso "the target cell holds an object" from the read or the allocation the handler performed just before; a statement
+about each individual store would need an instrumented semantics and is not given.) -/
+theorem vm_touch_allocated_partial (md : Vm.Module) (ins : Vm.Instr) (orc : Vm.Oracle) (p q : Nat) (h : Ver.simpleEffect ins = some (p, q))
+    (vm vm' : Vm.Vm) (hr : (Vm.exec md ins orc).run vm = .ok ((), vm')) :
+    (∀ x, (objAt vm.gc.mem x).isSome = true → (objAt vm'.gc.mem x).isSome = true) ∧ (FreeInv vm.gc → FreeInv vm'.gc) := by
+  obtain ⟨h1, h2⟩ := Vm.exec_kf_table md ins orc p q h vm () vm' hr
+  exact ⟨h1, fun hi => h2 (fun a ha => by cases ha) hi⟩
+
+/-- the hypotheses are met by real runs: `7 + 5` then HALT on a heap of 8 cells with a collection at every safe point is a `RunsTo` run
+from the start machine (4 steps), so its final heap satisfies the invariant; three cells are allocated, four free -/
+def vmExModule : Vm.Module := { code := #[⟨.INT, 7, 0, 0⟩, ⟨.INT, 5, 0, 0⟩, ⟨.OP_ADD_INT, 0, 0, 0⟩, ⟨.HALT, 0, 0, 0⟩, ⟨.UNHANDLED_EXCEPTION, 0, 0, 0⟩], strtab := #[], exctab := #[⟨0, 4⟩, ⟨4294967295, 0⟩], excCount := 1, codeEntry := 0, entryAddr := 0, params := [] }
+
+example : ∃ k vm', Ver.RunsTo vmExModule (fun _ => True) k (Vm.beginExecute vmExModule (Vm.Vm.new 8 8 1)) vm' ∧ vm'.running = 0 ∧
+    vm'.gc.cur.length = 3 ∧ FreeInv vm'.gc := by
+  have key : (match Ver.run vmExModule (fun _ => {}) 4 (Vm.beginExecute vmExModule (Vm.Vm.new 8 8 1)) with
+      | .ok v => v.running == 0 && v.gc.cur.length == 3 | .error _ => false) = true := by decide +kernel
+  cases hr : Ver.run vmExModule (fun _ => {}) 4 (Vm.beginExecute vmExModule (Vm.Vm.new 8 8 1)) with
+  | error e => rw [hr] at key; cases key
+  | ok v =>
+    rw [hr] at key
+    simp only [Bool.and_eq_true, beq_iff_eq] at key
+    obtain ⟨k, _, hk⟩ := Ver.run_runsTo vmExModule _ 4 _ _ hr
+    exact ⟨k, v, hk, key.1, key.2, (vm_heap_bookkeeping_invariant vmExModule 8 8 1 (by decide) k v hk).1⟩
 
 end Never.C09
